@@ -207,7 +207,7 @@ class Interp:
         self.sym = None               # optional sa.symbuf.SymExt: symbolic byte buffers / linear integers
         self.loop_unroll = 1          # while loops: number of iterations executed (1 = one generic iteration)
         self.maybe_falsy = None       # predicate on opaque values whose truthiness is not known (scenario scalars)
-        self.on_write = None          # optional write barrier: on_write(kind, target value, detail, ast node) for every store
+        self.on_write = None          # optional write barrier: on_write(kind, target value, detail, ast node, value written) for every store
                                       # into an object field / element and every mutating call on a container
         self.max_steps = MAX_STEPS
         self.models = {}              # Obj.id -> model object answering get / set / call / apply for a stand-in object
@@ -554,12 +554,12 @@ class Interp:
                     items = self.iterate(self.force(rhs))
                     if items is not None:
                         if self.on_write is not None:
-                            self.on_write("call", curf, "+=", s)
+                            self.on_write("call", curf, "+=", s, list(items))
                         curf[1].extend(items)
                         v = curf
                 elif curf[0] == "c" and isinstance(curf[1], bytearray) and rhs[0] == "c" and isinstance(rhs[1], (bytes, bytearray)):
                     if self.on_write is not None:
-                        self.on_write("call", curf, "+=", s)
+                        self.on_write("call", curf, "+=", s, [rhs])
                     curf[1].extend(rhs[1])
                     v = curf
             if v is None:
@@ -653,7 +653,7 @@ class Interp:
                 if isinstance(t, ast.Subscript):
                     b = self.expr(t.value, env, depth)
                     if self.on_write is not None:
-                        self.on_write("item", self.force(b), "del []", t)
+                        self.on_write("item", self.force(b), "del []", t, None)
                     if self.sym is not None and b[0] == "bufobj":
                         self.sym.delete(self, b, t.slice, env, depth)
                         continue
@@ -975,7 +975,7 @@ class Interp:
             k = self.expr(t.slice, env, depth) if not isinstance(t.slice, ast.Slice) else ("unk", "slice")
             kc = k if k[0] == "c" else None
             if self.on_write is not None:
-                self.on_write("item", b, "[]=", t)
+                self.on_write("item", b, "[]=", t, v)
             if b[0] == "node":
                 if kc is not None:
                     b[1].attrs[kc[1]] = v
@@ -1028,7 +1028,7 @@ class Interp:
                     self.call_function(setter[1], setter[0], b, [v], {}, depth=depth + 1)
                     return
             if self.on_write is not None:
-                self.on_write("attr", b, name2, node)
+                self.on_write("attr", b, name2, node, v)
             o.fields[name2] = v
         elif b[0] == "node":
             n = b[1]
@@ -2199,7 +2199,7 @@ class Interp:
                 if r_ is not None:
                     return r_
         if self.on_write is not None and name in MUTATORS and (k in ("list", "dict") or (k == "c" and isinstance(recv[1], (bytearray, list, dict, set)))):
-            self.on_write("call", recv, name, e)
+            self.on_write("call", recv, name, e, list(args))
         if self.sym is not None and k == "bufobj":
             return self.sym.method(self, recv, name, args, kwargs)
         if self.sym is not None and k == "lin" and name == "to_bytes":
